@@ -218,6 +218,7 @@ func (r *recyclingReader) scribble() {
 }
 
 func c14Scribble(c *run.Ctx, r *gen.RNG) {
+	c.Concurrent(true)
 	before := raceLogSize(c.RaceLogPrefix())
 	for rep := 0; rep < 6; rep++ {
 		f := genFrame(r, gen.Small)
